@@ -25,7 +25,7 @@ BOUNDS = {
 }
 STUBS = ['stub correlation with symbolic Cp/R, H/RT, S/R behind the real ThermochemBase dimensional getters',
          'fake Chem in group_data: MolFromSmiles/AddHs/GetAtoms/GetAtomicNum over a symbolic atom list']
-ASSUMPTIONS = ['float := real', 'RDKit AddHs adds the right hydrogens (fake adds an arbitrary number of H atoms)',
+ASSUMPTIONS = ['float := real', 'elemental clause: 0 < T <= 10000 K (the tabulated elemental entropies are float constants summed in a different order by the oracle)', 'RDKit AddHs adds the right hydrogens (fake adds an arbitrary number of H atoms)',
                'the unit table is a finite configuration: one obligation per key, each universal over T and values']
 OUTSIDE = ['which SMILES string the estimate reads (history: C15)', 'IEEE rounding of the products']
 REALISED = ['atomic numbers (choice among 6 elements per atom, solver-enumerated)']
@@ -39,6 +39,9 @@ def r_table():
         if isinstance(node, ast.Assign) and getattr(node.targets[0], 'id', None) == 'R_dict':
             return ast.literal_eval(node.value)
     raise RuntimeError('R_dict not found in pmutt.constants.R')
+
+
+_RJ = r_table()['J/mol/K']          # read once at import (outside the tracer)
 
 
 class _Stub(object):
@@ -183,28 +186,36 @@ def h_elemental(d: bool):
         counts = dict((i, R('n%d' % i)) for i in range(ncorr))
         est = gd.ThermochemGroupAdditive(_Lib(name, corrs), counts)
         T = R('T')
-        Rj = r_table()['J/mol/K']
+        if natoms <= 2 and not (0 < T <= 10000.0):
+            # the dimensional pairs multiply by T: the expected elemental sum is a float sum of the tabulated constants in
+            # another order than the code's (1e-16 relative apart), which an unbounded T would blow up past the tolerance
+            return skip()
+        Rj = _RJ
         base_s = 0
         base_h = 0
         for i in range(ncorr):
             base_s = base_s + counts[i] * corrs[i].s
             base_h = base_h + counts[i] * corrs[i].h
+        # summed atom by atom in the molecule's atom order (heavy atoms, then the added hydrogens), so that the float constants
+        # add up to the very same float as in the code and the difference of the two sides is the zero polynomial
         want_sel = 0
         for z in zs:
             want_sel = want_sel + _c.S_elements[z]
-        want_sel = want_sel + nh * _c.S_elements[1]
+        for _ in range(nh):
+            want_sel = want_sel + _c.S_elements[1]
+        dims = natoms <= 2          # the dimensional getters of the estimate do not depend on the atom count: small cases only
         ok, status = all_close(
             [(est.get_SoR(T, S_elements=True), base_s - want_sel),
              (est.get_SoR(T), base_s),
              (est.get_SoR(T, S_elements=False), base_s),
              (est.get_GoRT(T, S_elements=True), base_h - (base_s - want_sel)),
-             (est.get_GoRT(T), base_h - base_s),
-             # the dimensional getters of the ESTIMATE class (it may override them), one energy unit
-             (est.get_G(T, 'J/mol', S_elements=True), (base_h - (base_s - want_sel)) * T * Rj),
-             (est.get_G(T, 'J/mol'), (base_h - base_s) * T * Rj),
-             (est.get_S(T, 'J/mol/K', S_elements=True), (base_s - want_sel) * Rj),
-             (est.get_S(T, 'J/mol/K'), base_s * Rj),
-             (est.get_H(T, 'J/mol'), base_h * T * Rj)],
+             (est.get_GoRT(T), base_h - base_s)] + ([
+                 # the dimensional getters of the ESTIMATE class (it may override them), one energy unit
+                 (est.get_G(T, 'J/mol', S_elements=True), (base_h - (base_s - want_sel)) * T * Rj),
+                 (est.get_G(T, 'J/mol'), (base_h - base_s) * T * Rj),
+                 (est.get_S(T, 'J/mol/K', S_elements=True), (base_s - want_sel) * Rj),
+                 (est.get_S(T, 'J/mol/K'), base_s * Rj),
+                 (est.get_H(T, 'J/mol'), base_h * T * Rj)] if dims else []),
             ['S/R(S_elements) != S/R - sum of elemental entropies over all atoms incl. H',
              'S/R without the elemental reference changed', 'S/R with S_elements=False changed',
              'G/RT(S_elements) != H/RT - (S/R - elemental)', 'G/RT != H/RT - S/R',
